@@ -27,10 +27,12 @@
   with the same registrations.  `reset_like_fresh` states the agreement on the pool core (same
   handles from any number of creations), liveness, lock, cache, observers, resources and that
   every query is empty.  Deliberate differences that remain: components, archetypes, tables,
-  filter objects and observer objects stay registered; table capacities are kept; and — a small
-  observation about the Go code, reachable — the ID pools of the cache and of the observer
-  manager are only reset when something is registered at the time of `Reset`
-  (`reset_keeps_cache_id_pool`, `reset_keeps_observer_id_pool`).
+  filter objects and observer objects stay registered; table capacities are kept; and — small
+  observations about the Go code, reachable — cache and observer IDs are never recycled and
+  their pools are only reset when something is registered at the time of `Reset`
+  (`reset_keeps_cache_id_pool`, `reset_keeps_observer_id_pool`); an observer whose `Register`
+  panicked after taking its ID keeps that ID through `Reset`
+  (`reset_keeps_id_of_failed_register`: `ObsReg` is not an invariant across that recovered panic).
 -/
 import Ark.Proofs.ResetInv
 import Ark.Model.Ops
@@ -176,13 +178,14 @@ private def w0 : World := (setup (World.init 4 2)).state
 /-- the world after `Reset` -/
 private def w1 : World := (opReset w0).state
 
-private def archView (w : World) : List (List Comp × List Nat × List Nat × Nat × List Nat) :=
-  w.archetypes.map fun A =>
-    (A.comps, A.tables.tables, A.freeTables, A.targetTables.length,
-     A.relationTables.map (·.length))
-
-private def tblView (w : World) : List (Nat × Nat × Bool × List (List Val)) :=
-  w.tables.map fun T => (T.arch, T.len, T.isFree, T.cols)
+private def activeOf (w : World) : List (List Nat) := w.archetypes.map (·.tables.tables)
+private def freeOf (w : World) : List (List Nat) := w.archetypes.map (·.freeTables)
+private def tgtIdxOf (w : World) : List Nat := w.archetypes.map (·.targetTables.length)
+private def relIdxOf (w : World) : List (List Nat) :=
+  w.archetypes.map fun A => A.relationTables.map (·.length)
+private def lensOf (w : World) : List Nat := w.tables.map (·.len)
+private def isFreeOf (w : World) : List Bool := w.tables.map (·.isFree)
+private def colsOf (w : World) : List (List (List Val)) := w.tables.map (·.cols)
 
 -- the set-up runs, issues the handles 2.0 … 7.0, and leaves an unlocked, populated world
 example : isOk (setup (World.init 4 2)) = true ∧
@@ -190,9 +193,11 @@ example : isOk (setup (World.init 4 2)) = true ∧
     w0.isLocked = false := by decide +kernel
 
 example : w0.entities = [(maxU32, 0), (maxU32, 0), (0, 0), (0, 1), (1, 0), (2, 0), (3, 0), (maxU32, 2)] ∧
-    archView w0 = [([], [0], [], 0, []), ([0], [1], [], 0, [0]), ([0, 1], [2, 3], [], 2, [0, 2])] ∧
-    tblView w0 = [(0, 2, false, []), (1, 1, false, [[5, 0, 0, 0]]),
-                  (2, 1, false, [[7, 0], [0, 0]]), (3, 1, false, [[8, 0], [0, 0]])] := by
+    w0.archetypes.map (·.comps) = [[], [0], [0, 1]] ∧ w0.tables.map (·.arch) = [0, 1, 2, 2] ∧
+    activeOf w0 = [[0], [1], [2, 3]] ∧ freeOf w0 = [[], [], []] ∧ tgtIdxOf w0 = [0, 0, 2] ∧
+    relIdxOf w0 = [[], [0], [0, 2]] ∧ lensOf w0 = [2, 1, 1, 1] ∧
+    isFreeOf w0 = [false, false, false, false] ∧
+    colsOf w0 = [[], [[5, 0, 0, 0]], [[7, 0], [0, 0]], [[8, 0], [0, 0]]] := by
   decide +kernel
 
 example : w0.cache.indices = [(0, 0)] ∧ w0.cache.filters.map (·.tables.tables) = [[1, 2, 3]] ∧
@@ -220,9 +225,11 @@ example : w1.entities = [(maxU32, 0), (maxU32, 0)] ∧ w1.isTarget = [false, fal
 
 -- tables are empty and zeroed; the two tables of the relation archetype are on its free list,
 -- its relation indices are empty; the non-relation archetypes keep their table
-example : archView w1 = [([], [0], [], 0, []), ([0], [1], [], 0, [0]), ([0, 1], [], [2, 3], 0, [0, 0])] ∧
-    tblView w1 = [(0, 0, false, []), (1, 0, false, [[0, 0, 0, 0]]),
-                  (2, 0, true, [[0, 0], [0, 0]]), (3, 0, true, [[0, 0], [0, 0]])] := by
+example : w1.archetypes.map (·.comps) = [[], [0], [0, 1]] ∧ w1.tables.map (·.arch) = [0, 1, 2, 2] ∧
+    activeOf w1 = [[0], [1], []] ∧ freeOf w1 = [[], [], [2, 3]] ∧ tgtIdxOf w1 = [0, 0, 0] ∧
+    relIdxOf w1 = [[], [0], [0, 0]] ∧ lensOf w1 = [0, 0, 0, 0] ∧
+    isFreeOf w1 = [false, false, true, true] ∧
+    colsOf w1 = [[], [[0, 0, 0, 0]], [[0, 0], [0, 0]], [[0, 0], [0, 0]]] := by
   decide +kernel
 
 -- cache, filter object, observers, lock, resources
@@ -290,13 +297,14 @@ private def cacheIdScript : W Unit := do
   opFilterUnregister 1
   opReset
 
-/-- **Observation (reachable).**  `cache.Reset` returns early when no filter is registered, so
-    the cache's ID pool is NOT reset: after `Reset` the first registered filter gets ID 1, in a
-    new world ID 0.  (IDs are internal; nothing else depends on them.) -/
+/-- **Observation (reachable).**  `cache.unregister` never recycles the cache ID, and
+    `cache.Reset` returns early when no filter is registered, so the cache's ID pool is NOT
+    reset: after `Reset` the first registered filter gets ID 2, in a new world ID 0.  (IDs are
+    internal and 32 bits wide; nothing else depends on them.) -/
 theorem reset_keeps_cache_id_pool :
     isOk (cacheIdScript (World.init 2 2)) = true ∧
     (cacheIdScript (World.init 2 2)).state.cache.pool ≠ {} ∧
-    ((cacheIdScript (World.init 2 2)).state.cache.pool.get).2 = 1 ∧
+    ((cacheIdScript (World.init 2 2)).state.cache.pool.get).2 = 2 ∧
     ((World.init 2 2).cache.pool.get).2 = 0 := by decide +kernel
 
 /-- an observer registered and unregistered again (twice), then `Reset` -/
@@ -310,13 +318,39 @@ private def obsIdScript : W Unit := do
   opObsUnregister 11
   opReset
 
-/-- **Observation (reachable).**  The same for `observerManager.Reset`: without registered
-    observers its ID pool is not reset. -/
+/-- **Observation (reachable).**  The same for the observer manager: `RemoveObserver` never
+    recycles the observer ID, and without registered observers `Reset` does not reset the ID pool. -/
 theorem reset_keeps_observer_id_pool :
     isOk (obsIdScript (World.init 2 2)) = true ∧
     (obsIdScript (World.init 2 2)).state.obs.pool ≠ {} ∧
-    ((obsIdScript (World.init 2 2)).state.obs.pool.get).2 = 1 ∧
+    ((obsIdScript (World.init 2 2)).state.obs.pool.get).2 = 2 ∧
     ((World.init 2 2).obs.pool.get).2 = 0 := by decide +kernel
+
+/-- a relation observer on a non-relation component: `Register` panics — after the ID was
+    taken —, the panic is recovered, then `Reset` -/
+private def badObsScript : W Bool := do
+  let _ ← registerComponent {}
+  M.modify fun w => { w with
+    obs := w.obs.setObj 12 { spec := { event := Ev.onAddRelations, comps := [0] } } }
+  let r ← tryW (opObsRegister 12)
+  opReset
+  pure (match r with | .error .obsNonRelation => true | _ => false)
+
+/-- **Finding (reachable through panic + recover).**  `observerManager.AddObserver` assigns
+    `o.id = m.pool.Get()` BEFORE it validates the components of a relation observer.  If that
+    validation panics ("non-relation component in relation observer") and the panic is
+    recovered, the observer object keeps an ID although it is listed nowhere: `ObsReg` fails, and
+    `World.Reset` does not clear the ID — the conclusion "every observer object is unregistered
+    after `Reset`" is false in that state.  The object can neither be registered ("already
+    registered") nor unregistered ("not registered") afterwards. -/
+theorem reset_keeps_id_of_failed_register :
+    isOk (badObsScript (World.init 2 2)) = true ∧
+    value false (badObsScript (World.init 2 2)) = true ∧
+    ((badObsScript (World.init 2 2)).state.obs.obj 12).oid = some 0 ∧
+    (badObsScript (World.init 2 2)).state.obs.totalCount = 0 ∧
+    isOk (opObsRegister 12 (badObsScript (World.init 2 2)).state) = false ∧
+    isOk (opObsUnregister 12 (badObsScript (World.init 2 2)).state) = false := by
+  decide +kernel
 
 end Demo
 
